@@ -18,7 +18,7 @@
 (***************************************************************************)
 EXTENDS Integers, Sequences, FiniteSets, TLC, Json
 
-CONSTANTS MaxLines, Modes, MaxNext, Flags, LineKinds
+CONSTANTS MaxLines, Modes, MaxNext, Flags, LineKinds, MaxSep
 
 VARIABLES file, chunks, idx, mode, main, offset, stack, pastEnd, raised, diags, hist
 vars == <<file, chunks, idx, mode, main, offset, stack, pastEnd, raised, diags, hist>>
@@ -77,10 +77,15 @@ Step(a) == hist' = Append(hist, [a |-> a, s |-> Proj'])
 Init == /\ file \in Files /\ chunks = <<>> /\ idx = -1 /\ mode \in Modes /\ main = file /\ offset = 0
         /\ stack = <<>> /\ pastEnd = FALSE /\ raised = FALSE /\ diags = {} /\ hist = <<>>
 
-Separate == /\ idx = -1 /\ stack = <<>>
+\* separating again after the sections were stopped starts a new walk over the same file (histories of several walks)
+Stopped == hist # <<>> /\ hist[Len(hist)].a \in {"stop", "resolve"}
+NSep == Cardinality({k \in 1..Len(hist) : hist[k].a = "separate"})
+Separate == /\ stack = <<>> /\ NSep < MaxSep /\ (hist = <<>> \/ Stopped) /\ ~raised
             /\ chunks' = SplitM(file) /\ idx' = 0
-            /\ stack' = <<file>> /\ main' = SplitM(file)[1] /\ offset' = 0
-            /\ diags' = DiagsOf(SplitM(file)[1], 0)
+            \* clear_line_offsets(); flag offset_not_cleared models a re-separation that keeps the last walk's offset
+            /\ stack' = <<file>> /\ main' = SplitM(file)[1]
+            /\ offset' = (IF "offset_not_cleared" \in Flags THEN offset ELSE 0)
+            /\ diags' = DiagsOf(SplitM(file)[1], IF "offset_not_cleared" \in Flags THEN offset ELSE 0)
             /\ UNCHANGED <<file, mode, pastEnd, raised>> /\ Step("separate")
 
 NextSection ==
@@ -108,16 +113,16 @@ NextSection ==
 Stop == /\ stack # <<>> /\ ~raised /\ main' = Head(stack) /\ stack' = Tail(stack) /\ diags' = {}
         /\ UNCHANGED <<file, chunks, idx, mode, offset, pastEnd, raised>> /\ Step("stop")
 \* resolving runs the stop_any_sections hook
-Resolve == /\ idx >= 0 /\ ~raised /\ main' = (IF stack # <<>> THEN Head(stack) ELSE main)
+Resolve == /\ idx >= 0 /\ ~raised /\ ~Stopped /\ main' = (IF stack # <<>> THEN Head(stack) ELSE main)
            /\ stack' = <<>> /\ diags' = {}
            /\ UNCHANGED <<file, chunks, idx, mode, offset, pastEnd, raised>> /\ Step("resolve")
 
-Done == hist # <<>> /\ hist[Len(hist)].a \in {"stop", "resolve"}
+Done == Stopped /\ (NSep >= MaxSep \/ pastEnd)
 Next == ~Done /\ (Separate \/ NextSection \/ Stop \/ Resolve)
 Spec == Init /\ [][Next]_vars
 
 (* ---------- CONTRACT (C17) ---------- *)
-Presenting == idx >= 0 /\ stack # <<>> /\ ~pastEnd /\ ~raised /\ ~Done
+Presenting == idx >= 0 /\ stack # <<>> /\ ~pastEnd /\ ~raised /\ ~Stopped
 ExistsSection == idx + 1 <= Len(chunks)
 Lossless == chunks # <<>> => Flatten(chunks) = file
 KthChunk == Presenting /\ ExistsSection =>
@@ -130,7 +135,7 @@ WholeFileLines == Presenting /\ ExistsSection =>
         /\ SplitNL(main)[l][1] = d.tok
         /\ d.reported = OrigLine(PresentStart, main, l)
         /\ d.tok = ToString(d.reported)      \* code line i is the i-th line of the original file
-Restored == Done => main = file /\ stack = <<>>
+Restored == Stopped => main = file /\ stack = <<>>
 
 Export == Done => PrintT(<<"VP", ToJson([file |-> file, mode |-> mode, hist |-> hist])>>)
 =============================================================================
